@@ -171,6 +171,13 @@ func c11ObserveMulti(paths []string, srcs [][]byte, withResolver bool) ([]obj, s
 		}
 		afs, dfs = append(afs, af), append(dfs, df)
 	}
+	if withResolver {
+		// a decoration the resolver refuses (a dot-import, for the syntax-based resolver) on the same
+		// Decorator: the maps still describe the files decorated before
+		if bf, err := parser.ParseFile(fset, "refused.go", "package refused\n\nimport . \"strings\"\n\nvar _ = ToUpper(\"x\")\n", parser.ParseComments); err == nil {
+			guard(func() { d.DecorateFile(bf) })
+		}
+	}
 	// the decorator's maps are judged after decoration (of all files), before any restore: restoring
 	// with import management rewrites the import declarations of the dst tree it is given
 	decRecs := make([]obj, len(dfs))
